@@ -4,10 +4,13 @@ A query that stores a computed value on its receiver (`self._area = area`) is
 not a mutation in the sense of C20 when the field is a *memo field*:
 
   M1  the constructor (or a constructor-internal helper) only ever stores the
-      sentinel None into it;
+      sentinel None into it -- or does not mention it at all (the attribute is
+      absent until the first access);
   M2  every other store happens in a method of the same class that tests the
-      sentinel (`self.f is None` / `is not None`) -- a memo accessor -- or
-      stores the sentinel again (an invalidation, e.g. in move);
+      sentinel (`self.f is None` / `is not None`), or that reads `self.f`
+      inside a `try:` with an `except AttributeError:` handler
+      -- a memo accessor -- or stores the sentinel again / deletes the
+      attribute (an invalidation, e.g. in move);
   M3  the field is read nowhere else in the package: not by __eq__, __hash__,
       __repr__, other classes or module functions -- only by its accessors and
       invalidators, so it is invisible except through the accessor's result;
@@ -17,6 +20,10 @@ not a mutation in the sense of C20 when the field is a *memo field*:
   M5  the cached value cannot go stale: every value stored is translation
       invariant (transl.py), or every in-place mutator of the class (move,
       __setitem__) re-assigns the field.
+
+  M6  the cached value does not depend on the tolerance configuration (no
+      call that reaches get_eps / get_sig_figures takes part in computing it):
+      a memoised hash or comparison result would survive set_eps.
 
 Everything else stored by a query stays a reported write (R20.1).
 """
@@ -84,6 +91,16 @@ def memo_fields(ctx) -> Dict[Tuple[str, str], str]:
                     base = base.value
                 if isinstance(base, ast.Attribute):
                     stores.setdefault(base.attr, []).append((fi, n.target, None))
+    deleters: Dict[str, Set[str]] = {}
+    for fi in repo.functions(include_visualization=True):
+        if fi.self_name is None:
+            continue
+        for n in walk_local(fi.node):
+            if isinstance(n, ast.Delete):
+                for t in n.targets:
+                    a = _self_attr(t, fi.self_name)
+                    if a is not None:
+                        deleters.setdefault(a, set()).add(fi.qual)
     for c in [c for m in repo.core_modules() for c in m.classes.values()]:
         cands = {f for (k, f) in eng.fields if k == c.name}
         for f in sorted(cands):
@@ -110,6 +127,13 @@ def memo_fields(ctx) -> Dict[Tuple[str, str], str]:
                 tests = [x for x in walk_local(fi.node) if isinstance(x, ast.Compare) and len(x.ops) == 1
                          and isinstance(x.ops[0], (ast.Is, ast.IsNot)) and _self_attr(x.left, fi.self_name) == f
                          and isinstance(x.comparators[0], ast.Constant) and x.comparators[0].value is None]
+                if not tests:
+                    # the attribute-absent style:  try: x = self.f  except AttributeError: ...; self.f = x
+                    for tr in [x for x in walk_local(fi.node) if isinstance(x, ast.Try)]:
+                        reads_f = any(_self_attr(y, fi.self_name) == f and isinstance(y.ctx, ast.Load) for b in tr.body for y in ast.walk(b))
+                        handles = any(isinstance(h.type, ast.Name) and h.type.id == "AttributeError" for h in tr.handlers)
+                        if reads_f and handles:
+                            tests = [tr]
                 if not tests and fi.name not in MUTATORS:
                     ok, why = False, "%s stores it without testing the sentinel" % fi.short
                     break
@@ -119,6 +143,7 @@ def memo_fields(ctx) -> Dict[Tuple[str, str], str]:
                     accessors.add(fi.qual)
             if not ok or not accessors:
                 continue
+            invalidators |= {q for q in deleters.get(f, ()) if eng.fn_by_qual[q].cls is c}
             # M3 reads
             for fi, n in loads.get(f, []):
                 if fi.qual in accessors or fi.qual in invalidators:
@@ -143,6 +168,21 @@ def memo_fields(ctx) -> Dict[Tuple[str, str], str]:
                         exposes = exposes or (isinstance(r.value, ast.Name) and r.value.id in stored_names)
                         if exposes and not _immutable(ty):
                             ok, why = False, "%s hands the cached mutable object to its caller" % fi.short
+            if not ok:
+                continue
+            # M6 tolerance
+            from .rules.c15 import cond_deps
+            tol = ctx.cache.get("tolerance_functions")
+            if tol is None:
+                roots = {repo.fn(nm, "utils.constant").qual for nm in ("get_eps", "get_sig_figures")}
+                tol = ctx.cache["tolerance_functions"] = eng.transitive_callers_of(roots) | roots
+            for g_, t_, v_ in sts:
+                if v_ is None or g_.qual not in accessors:
+                    continue
+                visited: List[ast.AST] = []
+                cond_deps(ctx, g_, v_, visited)
+                if any(eng.targets_in(g_, x) & tol for x in visited):
+                    ok, why = False, "the cached value depends on the tolerance configuration"
             if not ok:
                 continue
             # M5 staleness
